@@ -18,7 +18,9 @@ from .. import common
 from ..common import Ctx
 
 THEOREMS = ["C03_zone_getters_valid", "C03_zone_getters_refuse", "C03_getter_domain_id_refuted", "C03_mix_valve_refuted", "C03_set_zone_setpoint_valid",
-            "C03_set_zone_setpoint_decodes_back", "C03_log_entry_valid", "C03_log_entry_refuted", "C03_opentherm_valid", "C03_fragment_request_valid", "C03_registered"]
+            "C03_set_zone_setpoint_decodes_back", "C03_log_entry_valid", "C03_log_entry_refuted", "C03_opentherm_valid", "C03_fragment_request_valid", "C03_registered",
+            "C03_set_zone_mode_valid", "C03_set_dhw_mode_valid", "C03_set_dhw_mode_countdown_refuted", "C03_set_dhw_mode_temporary_without_until_refuted",
+            "C03_set_dhw_mode_idx_refuted", "C03_set_system_mode_valid", "C03_set_system_time_valid", "C03_set_zone_config_valid", "C03_mode_cmds_registered"]
 
 CTL = "01:145038"
 
@@ -189,6 +191,7 @@ def run(ctx: Ctx) -> None:
                 same = math.isclose(got, round(v * 200) / 200, abs_tol=1e-9)
             if not same:
                 ctx.violation(f"decoded-value-differs:{name}:{k}", f"{name}{args}{kwargs} -> {cmd}: decoded {k}={got!r}, asked for {v!r}", {**case, "decoded": str(payload)[:300]}, "input")
+    mode_commands(ctx, built, thorough)
     # correspondence of the modelled builders over their whole domain
     if not built:
         ctx.obligation("correspondence:payload-builders", False, "correspondence", "model not built")
@@ -239,6 +242,182 @@ def run(ctx: Ctx) -> None:
             bad.append(f"set_zone_setpoint(3, {k / 100}): model {txt(zs)!r} implementation {real!r}")
     ctx.obligation("correspondence:payload-builders", not bad, "correspondence", f"{len(bad)} differ; first: {bad[0]}" if bad else
                    f"{sum(len(r) for r in got)} payloads of 10 modelled builders agree over their swept domains")
+
+
+MODES = {"follow_schedule": 0, "advanced_override": 1, "permanent_override": 2, "countdown_override": 3, "temporary_override": 4}
+SYSMODES = {"auto": 0, "heat_off": 1, "eco_boost": 2, "away": 3, "day_off": 4, "day_off_eco": 5, "auto_with_reset": 6, "custom": 7}
+
+MC_PRELUDE = """From Coq Require Import ZArith String List Bool PrimFloat.
+From RV Require Import Py PyStr PyFloat Regex GenRegex GenTables M_Codecs M_Command M_ModeCmd.
+Import ListNotations. Open Scope Z_scope.
+Set Printing Width 1000000. Set Printing Depth 1000000.
+Definition s2z (s : str) : list Z := map (fun c => Z.of_nat (Ascii.nat_of_ascii c)) s.
+Definition tz (t : tempv) : list Z := match t with TNone => [0] | TFalse => [1] | TNum f => [2; match round_to_Z (fmul f (f_of_Z 100)) with Some z => z | None => -99999 end] end.
+Definition dz (d : option dtf) : list Z := match d with None => [0] | Some f => [1; yr f; mo f; dd f; hh f; mi f; ss f] end.
+Definition odz (d : option (option dtf)) : list Z := match d with None => [0] | Some x => 1 :: dz x end.
+Definition sh2349 (r : result zmode) : list Z := match r with Raise _ => [9] | Ok z => [1; zm_mode z] ++ tz (zm_setpoint z) ++ (match zm_duration z with Some d => [1; d] | None => [0] end) ++ odz (zm_until z) end.
+Definition sh1f41 (r : result dmode) : list Z := match r with Raise _ => [9] | Ok z => [1; dm_mode z] ++ (match dm_active z with None => [0] | Some None => [1; 2] | Some (Some true) => [1; 1] | Some (Some false) => [1; 0] end) ++ odz (dm_until z) end.
+Definition sh2e04 (r : result smode) : list Z := match r with Raise _ => [9] | Ok z => [1; sm_mode z] ++ odz (sm_until z) end.
+Definition sh313f (r : result (option dtf * bool)) : list Z := match r with Raise _ => [9] | Ok (d, b) => [1] ++ dz d ++ [if b then 1 else 0] end.
+Definition sh000a (r : result zconf) : list Z := match r with Raise _ => [9] | Ok z => [1] ++ tz (zc_min z) ++ tz (zc_max z) ++ [if zc_local_override z then 1 else 0; if zc_openwindow z then 1 else 0; if zc_multiroom z then 1 else 0] end.
+Definition both {R} (code : Z) (sh : result R -> list Z) (parse : str -> result R) (o : option str) : list (list Z) :=
+  match o with None => [[0]] | Some p => [s2z p; if payload_ok V_W code p then sh (parse p) else [9]] end.
+"""
+
+
+def _mc_cases(rng, thorough):
+    import itertools  # noqa: PLC0415
+
+    def dtf(d):
+        return "None" if d is None else f"(Some (mk_dtf {d.year} {d.month} {d.day} {d.hour} {d.minute} {d.second}))"
+
+    def oz(x):
+        return "None" if x is None else f"(Some ({x}))"
+
+    def ob(x):
+        return "None" if x is None else f"(Some {str(x).lower()})"
+
+    def word(sp):
+        return None if sp is None else (round(sp * 100) % 65536)
+
+    def rdt():
+        y = rng.choice([1, 1999, 2024, 2025, 2026, 2100, 9999])
+        mth = rng.randrange(1, 13)
+        day = rng.randrange(1, 29) if rng.random() < 0.8 else [31, 29 if (y % 4 == 0 and (y % 100 != 0 or y % 400 == 0)) else 28, 31, 30, 31, 30, 31, 31, 30, 31, 30, 31][mth - 1]
+        return _dt.datetime(y, mth, day, rng.randrange(0, 24), rng.randrange(0, 60), rng.randrange(0, 60))
+
+    untils = [None, _dt.datetime(2024, 2, 29, 23, 59), _dt.datetime(2026, 12, 31, 0, 0), rdt().replace(second=0)]
+    sps = [None, 21.5, 5.0, -3.0, round(rng.randrange(500, 3501) / 100, 2)]
+    durs = [None, 0, 1, 90, rng.randrange(2, 1440), 0xFFFFFE]
+    cases = []
+    idxs = [0, rng.randrange(1, 15), 15, 16, 0xFA] if not thorough else list(range(17)) + [0xF9, 0xFA, 0xFC, 255]
+    for idx, mode, sp, un, du in itertools.product(idxs, [None, 0, 1, 2, 3, 4, 5], sps, untils, durs):
+        cases.append(("zm", (idx, mode, sp, un, du), f"both 0x2349 sh2349 parser_2349 (set_zone_mode {idx} {oz(mode)} {oz(word(sp))} {dtf(un)} {oz(du)})"))
+    for idx, mode, ac, un, du in itertools.product([0, 1, 2], [None, 0, 1, 2, 3, 4, 7], [None, True, False], untils, [None, 0, 60, rng.randrange(1, 1440)]):
+        cases.append(("dm", (idx, mode, ac, un, du), f"both 0x1F41 sh1f41 parser_1f41 (set_dhw_mode {idx} {oz(mode)} {ob(ac)} {dtf(un)} {oz(du)})"))
+    for mode, un in itertools.product([None, 0, 1, 2, 3, 4, 5, 6, 7, 8], untils + [rdt().replace(second=0) for _ in range(3)]):
+        cases.append(("sm", (mode, un), f"both 0x2E04 sh2e04 parser_2e04 (set_system_mode {oz(mode)} {dtf(un)})"))
+    dts = [_dt.datetime(2024, 2, 29, 23, 59, 59), _dt.datetime(2026, 12, 31, 0, 0, 0), _dt.datetime(2025, 3, 30, 2, 30, 1), _dt.datetime(1, 1, 1, 0, 0, 0),
+           _dt.datetime(9999, 12, 31, 23, 59, 59)] + [rdt() for _ in range(40 if thorough else 10)]
+    for d, dst in itertools.product(dts, [False, True]):
+        cases.append(("st", (d, dst), f"both 0x313F sh313f parser_313f (Some (set_system_time (mk_dtf {d.year} {d.month} {d.day} {d.hour} {d.minute} {d.second}) {str(dst).lower()}))"))
+    for idx, kmin, kmax, lo, ow, mr in itertools.product([0, rng.randrange(1, 16), 16], [500, rng.randrange(501, 2100), 2100, 499, 2101], [2100, 3500, 2099, 3501, rng.randrange(2101, 3500)],
+                                                         [False, True], [False, True], [False, True]):
+        cases.append(("zc", (idx, kmin, kmax, lo, ow, mr), f"both 0x000A sh000a parser_000a (set_zone_config {idx} {kmin} {kmax} {str(lo).lower()} {str(ow).lower()} {str(mr).lower()})"))
+    return cases
+
+
+def mode_commands(ctx: Ctx, built: bool, thorough: bool) -> None:
+    """set_zone_mode / set_dhw_mode / set_system_mode / set_system_time / set_zone_config and the decoders of their codes: the real
+    constructors and the real decoder vs the Coq models over the product of modes x setpoints x untils x durations (and refusals)."""
+    from ramses_tx.command import Command  # noqa: PLC0415
+    from ramses_tx.message import Message  # noqa: PLC0415
+
+    def tz(t):
+        return [0] if t is None else ([1] if t is False else [2, round(t * 100)])
+
+    def dz(sx):
+        if sx is None:
+            return [0]
+        d = _dt.datetime.fromisoformat(sx)
+        return [1, d.year, d.month, d.day, d.hour, d.minute, d.second]
+
+    def build(kind, a):
+        if kind == "zm":
+            return "set_zone_mode", Command.set_zone_mode(CTL, a[0], mode=a[1], setpoint=a[2], until=a[3], duration=a[4])
+        if kind == "dm":
+            return "set_dhw_mode", Command.set_dhw_mode(CTL, mode=a[1], active=a[2], until=a[3], duration=a[4], dhw_idx=a[0])
+        if kind == "sm":
+            return "set_system_mode", Command.set_system_mode(CTL, a[0], until=a[1])
+        if kind == "st":
+            return "set_system_time", Command.set_system_time(CTL, a[0], is_dst=a[1])
+        return "set_zone_config", Command.set_zone_config(CTL, a[0], min_temp=a[1] / 100, max_temp=a[2] / 100, local_override=a[3], openwindow_function=a[4], multiroom_mode=a[5])
+
+    def decode(kind, cmd):
+        try:
+            p = Message._from_cmd(cmd).payload
+        except Exception:  # noqa: BLE001
+            return [9]
+        if kind == "zm":
+            return [1, MODES[p["mode"]]] + tz(p["setpoint"]) + ([1, p["duration"]] if "duration" in p else [0]) + ([1] + dz(p["until"]) if "until" in p else [0])
+        if kind == "dm":
+            return [1, MODES[p["mode"]]] + ([1, {None: 2, True: 1, False: 0}[p["active"]]] if "active" in p else [0]) + ([1] + dz(p["until"]) if "until" in p else [0])
+        if kind == "sm":
+            return [1, SYSMODES[p["system_mode"]]] + ([1] + dz(p["until"]) if "until" in p else [0])
+        if kind == "st":
+            return [1] + dz(p["datetime"]) + [1 if p["is_dst"] else 0]
+        return [1] + tz(p["min_temp"]) + tz(p["max_temp"]) + [int(p["local_override"]), int(p["openwindow_function"]), int(p["multiroom_mode"])]
+
+    def asked(kind, a, dec):
+        """The decoded values the ARGUMENTS call for (the property's own reading, independent of the model); None = no claim."""
+        def ns(d):
+            return [0] if d is None else [1, d.year, d.month, d.day, d.hour, d.minute, 0]
+        if kind == "zm":
+            _, mode, sp, un, du = a
+            m = mode if mode is not None else (4 if un else 3 if du else 2)
+            return [1, m] + tz(sp) + ([1, du] if du is not None else [0]) + ([1] + ns(un) if un is not None else [0])
+        if kind == "dm":
+            _, mode, ac, un, du = a
+            m = mode if mode is not None else (4 if un else 3 if du else 2)
+            act = None if m == 0 else ac
+            return [1, m] + ([1, int(act)] if act is not None else [0]) + ([1] + ns(un) if un is not None else [0])
+        if kind == "sm":
+            mode, un = a
+            m = mode or 0
+            return [1, m] + ([0] if m in (0, 1, 6) else [1] + ns(un))
+        if kind == "st":
+            d, dst = a
+            return [1, 1, d.year, d.month, d.day, d.hour, d.minute, d.second, int(dst)]
+        _, kmin, kmax, lo, ow, mr = a
+        return [1, 2, kmin, 2, kmax, int(lo), int(ow), int(mr)]
+
+    cases = _mc_cases(ctx.rng, thorough)
+    impl = []
+    for kind, a, _ in cases:
+        try:
+            name, cmd = build(kind, a)
+        except Exception:  # noqa: BLE001
+            impl.append((None, None))
+            ctx.case(("mode-cmd", kind, repr(a)), False, f"refused:{kind}")
+            continue
+        dec = decode(kind, cmd)
+        impl.append((cmd.payload, dec))
+        ctx.case(("mode-cmd", kind, repr(a)), True, f"built:{name}")
+        case = {"constructor": name, "args": repr(a), "frame": str(cmd)}
+        if dec == [9]:
+            if kind == "zm":
+                cls = "domain-id-let-through" if a[0] in (0xF9, 0xFA, 0xFC) else "other"
+            elif kind == "dm":
+                m = a[1] if a[1] is not None else (4 if a[3] else 3 if a[4] else 2)
+                cls = "dhw-idx-let-through" if a[0] not in (0, 1) else "in-domain" if m == 3 else "temporary-without-until" if m == 4 and a[3] is None else "other"
+            else:
+                cls = "other"
+            ctx.violation(f"constructor-emits-undecodable-frame:{name}:{cls}", f"{name}{a} built {cmd} which the library's decoder rejects", case, "input")
+        elif dec != asked(kind, a, dec):
+            ctx.violation(f"decoded-value-differs:{name}:mode-command", f"{name}{a} -> {cmd}: decoded {dec}, asked for {asked(kind, a, dec)}", case, "input")
+    if not built:
+        ctx.obligation("correspondence:mode-commands", False, "correspondence", "model not built")
+        return
+    shard = 400
+    files = {f"m{k // shard}": MC_PRELUDE + "".join(f"Eval vm_compute in ({t}).\n" for _, _, t in cases[k:k + shard]) for k in range(0, len(cases), shard)}
+    res = common.coq_eval("C03mc", files, timeout=900)
+    bad, total = [], 0
+    for k in range(0, len(cases), shard):
+        rc, out = res[f"m{k // shard}"]
+        rows = [eval(o.replace(";", ","), {"__builtins__": {}}) for o in re.findall(r"=\s*(\[.*?\])\s*:\s*list \(list Z\)", out, flags=re.S)]  # noqa: S307
+        mine = cases[k:k + shard]
+        if rc or len(rows) != len(mine):
+            bad.append(f"rc={rc}, {len(rows)} results for {len(mine)} cases: {out[-300:]}")
+            continue
+        for (kind, a, _), (pl, dec), r in zip(mine, impl[k:k + shard], rows):
+            total += 1
+            m_pl = None if r == [[0]] else "".join(chr(z) for z in r[0])
+            m_dec = None if r == [[0]] else list(r[1])
+            if m_pl != pl or m_dec != dec:
+                bad.append(f"{kind}{a}: model payload {m_pl} decoded {m_dec}; implementation payload {pl} decoded {dec}")
+    ctx.obligation("correspondence:mode-commands", not bad, "correspondence", f"{len(bad)} of {total} differ; first: {bad[0][:600]}" if bad else
+                   f"{total} argument combinations of set_zone_mode / set_dhw_mode / set_system_mode / set_system_time / set_zone_config: payload or refusal, and the decoder's verdict and values, agree")
+    ctx.extra["mode_command_cases"] = total
 
 
 def replay(case: dict) -> int:
